@@ -282,7 +282,9 @@ def validate_trace(tag, base, trace_file, consts=None, timeout=600, heap="4g", v
     tl = parse_tlc(text)
     rej = tagged_lines(text, "TRACE-REJECT")
     acc = tagged_lines(text, "ACCEPTED")
+    div = tagged_lines(text, "IMPL-DIVERGED")
     res = {"accepted": bool(acc) and not rej and "REJECTED" not in text, "reject": rej[0] if rej else None,
+           "impl_diverged": div[0] if div else None,
            "states": tl["distinct"], "generated": tl["generated"], "wall_s": round(time.time() - t0, 1),
            "rc": r.returncode, "text": text}
     shutil.rmtree(os.path.join(d, "md"), ignore_errors=True)
